@@ -89,10 +89,7 @@ def run(ctx):
         ctx.tlc('MC_Resolver', mcs, simulate=(400 if q else 5000), depth=400, workers=min(4, ctx.cores), timeout=1500)
         # the inference on the programs of the "frames" family (three/four parameters, recursion with fewer arguments)
         mcf = ctx.cfg('MC_Resolver', name='MC_Resolver_frames', constants=dict(frames, MapOrder='"any"'))
-        if q:
-            ctx.tlc('MC_Resolver', mcf, simulate=150, depth=400, workers=min(4, ctx.cores), timeout=1500)
-        else:
-            ctx.tlc('MC_Resolver', mcf, timeout=3000, heap='10g')
+        ctx.tlc('MC_Resolver', mcf, simulate=(150 if q else 3000), depth=400, workers=min(4, ctx.cores), timeout=1500)
     # 2. spec -> code
     gen = ctx.cfg('Gen_Resolver', name='Gen_Resolver_ex', constants=consts())
     ctx.tlc('Gen_Resolver', gen, capture='cases.ndjson', timeout=1500, heap='8g')
@@ -110,6 +107,12 @@ def run(ctx):
         ctx.tlc('Gen_Resolver', gf4, capture='cases.ndjson', simulate=5000, depth=20, workers=min(4, ctx.cores), timeout=1500)
     ctx.cov['exhaustive'] = True
     ctx.replay('cases.ndjson', label='gen-resolver', min_cases=1000, corrupt=corrupt)
+    # the binding self-test again on the new family alone: accepted programs whose calls leave parameters out
+    with open(ctx.path('cases_frames.ndjson'), 'w') as f:
+        for line in open(ctx.path('cases.ndjson')):
+            if '"fam":"frames"' in line and '"omitted":["' in line:
+                f.write(line)
+    ctx.selftest(ctx.path('cases_frames.ndjson'), 'C16', corrupt, 'gen-resolver-frames')
     nfr = sum(1 for line in open(ctx.path('cases.ndjson')) if '"fam":"frames"' in line and '"omitted":["' in line)
     ctx.cov['frames_cases_with_omitted_parameters'] = nfr
     if nfr < 100:
